@@ -3,16 +3,42 @@
 Three exhaustive explorations against the real code:
 
   terms    every grammar term with <= N nodes over a 10-leaf / 9-unary / 10-binary alphabet, built
-           with the library's own operators, run on every input over {a,b,A} of length <= 4 through
-           the documented process(pos, data, ctx) protocol (and through __call__), compared with a
-           reference PEG interpreter (ref/c19_peg.py) on accept/reject, end position and value
-  json     every JSON value of depth <= 3 over a small scalar set, four whitespace renderings,
-           insights.parsr.examples.json_parser.loads vs json.loads
-  taglang  every tag expression AST of depth <= 3, up to four renderings, all 8 tag sets,
-           insights.core.taglang.parse vs Boolean evaluation of the AST
+           with the library's own operators (so the accumulating `+` / `|` are exercised, with and
+           without Wrapper), run on every input over {a,b,A} of length <= 4 through the documented
+           process(pos, data, ctx) protocol on a fresh Context (and through __call__ for the smaller
+           terms), compared with a reference PEG interpreter (ref/c19_peg.py) on accept/reject, end
+           position and value.  (term, input) pairs on which the reference applies a repetition to a
+           sub-term that succeeds without consuming are outside the quantifier and skipped.  The
+           implementation runs under a budget (process() calls counted through a Context subclass,
+           plus a CPU-time alarm), so non-termination is a reported divergence and not a hang.
+  json     every JSON value of depth <= 3 over {0, 7, -3, 2.5, "s", "", "a\"b", true, false, null,
+           [], {}}, four whitespace renderings (compact, json.dumps default, indented, padded = JSON
+           whitespace around every token), insights.parsr.examples.json_parser.loads vs json.loads
+  taglang  every tag expression AST of depth <= 3 (bare / quoted tags, regex atoms, ! & | ,), up to
+           four renderings (minimal or full parentheses x with or without optional spaces), all 8
+           tag sets over {a,b,c}, insights.core.taglang.parse vs Boolean evaluation of the AST
+           under  ! > & > | = ,
 
 The reference interpreter is cross-checked against a second formulation (bottom-up tabular
 evaluation) on a stated sub-space in every run; a disagreement is a harness error, not a verdict.
+
+What the oracle deliberately does not demand (weaker readings, DESIGN.md section 3):
+  * sep_by is read by its definition  Opt(x) then Many(sep >> x)  - so a leading separator is
+    accepted, as the code does - with value = the values of the matched instances.  A first
+    instance whose value is None may be missing from the list (None is the library's "no value");
+    a first instance with another falsy value (0, "", []) may not.
+  * no space is put between `!` and its operand in tag expressions (the docs never show one), and
+    an unquoted regex atom is always followed by a space (documented: it runs to the next blank).
+  * JSON documents that json.loads rejects are not generated (leading zeros, `[,1]`, single quotes...).
+
+On the unchanged tree the check reports four defect families (findings-draft/C19.json); each
+violation carries features that say which structural trigger is present *and* whether the
+observation is fully explained by the listed triggers (a violation that is not explained that way
+never matches a finding):
+  * the JSON grammar rejects the empty string literal ""                       (value or key)
+  * sep_by drops a falsy first instance: JSON [0] -> [], [false, 1] -> [1]     (json + terms)
+  * the JSON grammar rejects whitespace inside an empty container  [ ]  { }    (padded rendering)
+  * the JSON grammar rejects whitespace between a key and the colon            (padded rendering)
 """
 import itertools
 import json
@@ -54,7 +80,9 @@ BOUNDS = {
 CAP_S = {"quick": 240, "thorough": 2400}
 
 STEP_BUDGET = 5000          # process() calls per parse; legitimate parses here need < 200
-CPU_GUARD_S = 20            # process CPU seconds per term (121 parses normally take ~1 ms)
+CPU_GUARD_S = 1             # user-mode CPU seconds of this process per term (121 parses normally take ~2 ms)
+DOC_GUARD_S = 1             # ... per JSON document / tag expression (normally ~0.3 ms)
+MAX_HANGS_PER_UNIT = 3      # a unit is abandoned (exhaustive: false) after that many non-terminating cases
 
 SIGMA = "abA"
 INPUTS = [""] + ["".join(p) for n in (1, 2, 3, 4) for p in itertools.product(SIGMA, repeat=n)]
@@ -105,19 +133,6 @@ def all_terms(max_nodes):
             bounds.append(len(out))
         _ALL[max_nodes] = (out, bounds)
     return _ALL[max_nodes]
-
-
-def term_size(t):
-    return 1 + sum(term_size(c) for c in t[1:] if isinstance(c, (list, tuple)))
-
-
-def term_kinds(t, acc=None):
-    acc = set() if acc is None else acc
-    acc.add(t[0])
-    for c in t[1:]:
-        if isinstance(c, (list, tuple)):
-            term_kinds(c, acc)
-    return acc
 
 
 # ---------------------------------------------------------------------------------------------
@@ -238,25 +253,57 @@ def budget_ctx():
     return _CTX
 
 
+_ALARM = {"installed": False, "fired": False}
+
+
 def _on_cpu_alarm(signum, frame):
+    _ALARM["fired"] = True            # kept as a flag too: Choice's bare `except:` can swallow the exception
     raise BudgetExceeded()
 
 
 class cpu_guard(object):
-    """Safety net for loops that never call process(): SIGVTALRM after CPU_GUARD_S seconds of
-    *process CPU time* (independent of machine load), repeated every second until cleared."""
+    """Safety net for loops that never call process(): SIGVTALRM after `seconds` of *user-mode CPU time
+    of this process* (independent of machine load), repeated every 50 ms until disarmed."""
+
+    def __init__(self, seconds=CPU_GUARD_S):
+        self.seconds = seconds
+        self.fired = False
 
     def __enter__(self):
-        self.old = signal.signal(signal.SIGVTALRM, _on_cpu_alarm)
-        signal.setitimer(signal.ITIMER_VIRTUAL, CPU_GUARD_S, 1.0)
+        if not _ALARM["installed"]:
+            signal.signal(signal.SIGVTALRM, _on_cpu_alarm)
+            _ALARM["installed"] = True
+        _ALARM["fired"] = False
+        signal.setitimer(signal.ITIMER_VIRTUAL, self.seconds, 0.05)
+        return self
 
     def __exit__(self, *a):
         signal.setitimer(signal.ITIMER_VIRTUAL, 0)
-        signal.signal(signal.SIGVTALRM, self.old)
+        self.fired = _ALARM["fired"]
         return False
 
 
+def guarded(fn, arg, seconds=DOC_GUARD_S):
+    """-> ("ok", value) | ("exc", exception) | ("hang", None); used for the shipped grammars, whose
+    public entry points do not take a Context class."""
+    out = None
+    try:
+        with cpu_guard(seconds) as g:
+            try:
+                out = ("ok", fn(arg))
+            except BudgetExceeded:
+                out = ("hang", None)
+            except Exception as ex:
+                out = ("exc", ex)
+    except BudgetExceeded:              # fired between the call and disarming
+        return ("hang", None)
+    if g.fired:
+        return ("hang", None)
+    return out
+
+
 HANG = ("<budget exceeded>",)
+_MAX_STEPS = [0]            # most process() calls any completed parse needed (reported in the evidence)
 
 
 def run_process(parser, s):
@@ -270,8 +317,10 @@ def run_process(parser, s):
         return HANG
     except Exception:
         got = peg.FAIL
-    if ctx.steps > STEP_BUDGET:
+    if ctx.steps > STEP_BUDGET or _ALARM["fired"]:
         return HANG
+    if ctx.steps > _MAX_STEPS[0]:
+        _MAX_STEPS[0] = ctx.steps
     return got
 
 
@@ -290,7 +339,7 @@ def run_call(parser, s):
         return HANG
     except Exception:
         got = peg.FAIL
-    if made and made[0].steps > STEP_BUDGET:
+    if (made and made[0].steps > STEP_BUDGET) or _ALARM["fired"]:
         return HANG
     return got
 
@@ -318,6 +367,8 @@ def jsonable(v):
         return ["mark", v.lineno, v.col, jsonable(v.value)]
     if isinstance(v, (list, tuple)):
         return [jsonable(x) for x in v]
+    if isinstance(v, dict):
+        return dict((str(k), jsonable(x)) for k, x in v.items())
     if v is None or isinstance(v, (str, int, float, bool)):
         return v
     return repr(v)
@@ -352,15 +403,16 @@ def check_term_case(case):
     first_falsy = peg.Stats.sep_first_falsy > 0
     first_none = peg.Stats.sep_first_none > 0
     runner = run_process if via == "process" else run_call
-    with cpu_guard():
-        try:
+    budget_ctx()                        # imports happen outside the CPU guard
+    try:
+        with cpu_guard():
             parser = build(t)
             for q in case.get("prior", []):
                 if peg.evaluate(t, q) is not peg.LOOP:
                     runner(parser, q)
             got = runner(parser, s)
-        except BudgetExceeded:
-            got = HANG
+    except BudgetExceeded:
+        got = HANG
     with_pos = via == "process"
     if agree(exp, got, with_pos):
         return []
@@ -376,13 +428,15 @@ def check_term_case(case):
     else:
         clause = "combinators:value"
     if got is not HANG and (first_none or first_falsy):
-        # attribution only: does the observation equal the reference with the first sep_by instance dropped?
-        if first_none and agree(peg.evaluate(t, s, peg.DROP_NONE), got, with_pos):
+        # Attribution only (never turns agreement into a violation): does the observation equal the
+        # reference with first sep_by instances dropped?  Nested sep_by compose: a tolerated dropped
+        # None can leave an *outer* first instance falsy ([] instead of [None]), hence the two passes.
+        if agree(peg.evaluate(t, s, peg.DROP_NONE), got, with_pos):
             return [("tolerated:sep_by-first-none", None, None, {})]
-        if first_falsy:
+        dropped = agree(peg.evaluate(t, s, peg.DROP_FALSY), got, with_pos)
+        if dropped or first_falsy:
             feats["sep_by_first_value_falsy"] = True
-            feats["equals_reference_with_falsy_first_sep_by_instance_dropped"] = \
-                agree(peg.evaluate(t, s, peg.DROP_FALSY), got, with_pos)
+            feats["equals_reference_with_falsy_first_sep_by_instance_dropped"] = dropped
     return [(clause, describe(exp if with_pos or exp is peg.FAIL else (None, exp[1])), describe(got), feats)]
 
 
@@ -398,9 +452,9 @@ J_RENDERINGS = ["compact", "spaced", "indent", "padded"]
 J_PADS = [" ", "\t", "\n", "\r\n"]
 
 
-def j_containers(pool_a, pool_b=None, need_b=False):
-    """Containers of width <= 2. Children come from pool_a; with pool_b given, exactly one child
-    (need_b=True) or at least one child (need_b=False, pool_a must then contain pool_b) is from pool_b."""
+def j_containers(pool_a, pool_b=None):
+    """Arrays of length 1..2 and objects with 1..2 entries. Children come from pool_a; with pool_b
+    given, exactly one child is from pool_b and the other (if any) from pool_a."""
     if pool_b is None:
         for x in pool_a:
             yield ["A", x]
@@ -473,7 +527,9 @@ def j_scalar_text(v):
     return repr(v)
 
 
-def j_render(v, how):
+def j_render(v, how, avoid_known_triggers=False):
+    """avoid_known_triggers: the padded rendering without whitespace before ':' and inside empty
+    containers (used only to attribute a rejection, see check_json_case)."""
     if how == "indent":
         return _j_indent(v, 0)
     if how == "padded":
@@ -481,7 +537,9 @@ def j_render(v, how):
         _j_tokens(v, toks)
         out = []
         for i, tk in enumerate(toks):
-            out.append(J_PADS[i % len(J_PADS)])
+            glued = avoid_known_triggers and (tk == ":" or (tk in "]}" and toks[i - 1] in "[{"))
+            if not glued:
+                out.append(J_PADS[i % len(J_PADS)])
             out.append(tk)
         out.append(" ")
         return "".join(out)
@@ -551,6 +609,15 @@ def j_facts(v, how):
     return f
 
 
+def j_without_empty_strings(v):
+    """The same descriptor with every empty string (value or key) replaced by "e"."""
+    if isinstance(v, list):
+        if v[0] == "A":
+            return ["A"] + [j_without_empty_strings(x) for x in v[1:]]
+        return ["O"] + [[k if k != "" else "e", j_without_empty_strings(x)] for k, x in v[1:]]
+    return "e" if (isinstance(v, str) and v == "") else v
+
+
 def j_drop_falsy_first(plain):
     """What json.loads' answer becomes when every array loses a falsy first element (bottom-up).
     Attribution aid only - never decides a verdict."""
@@ -593,18 +660,27 @@ def check_json_case(case):
     if not strict_eq(exp, j_plain(v)):           # the harness' renderer must describe the value it claims to
         raise RuntimeError("C19 json renderer is wrong: %r renders as %r" % (v, text))
     facts = j_facts(v, how)
-    try:
-        got = j_loads()(text)
-        failed = False
-    except Exception as ex:
-        got = "rejected: " + " ".join(str(ex).split())[:120]
-        failed = True
-    if not failed and strict_eq(got, exp):
+    loads = j_loads()
+    status, got = guarded(loads, text)
+    if status == "hang":
+        return [("json:terminates", {"text": text, "value": exp}, "no result within %d CPU-s" % DOC_GUARD_S, {"render": how})]
+    failed = status == "exc"
+    if failed:
+        got = "rejected: " + " ".join(str(got).split())[:120]
+    elif strict_eq(got, exp):
         return []
     feats = {"render": how, "json_contains_empty_string": facts["empty_string"]}
     if failed:
         feats["json_whitespace_before_colon"] = how == "padded" and facts["nonempty_object"]
         feats["json_whitespace_inside_empty_container"] = how == "padded" and facts["empty_container"]
+        # attribution only (never decides the verdict): is the same document accepted once the listed
+        # triggers are taken out of it?  If not, something else rejects it and no finding may match.
+        rtext = j_render(j_without_empty_strings(v), how, avoid_known_triggers=True)
+        explained = False
+        if rtext != text:
+            rstatus, rgot = guarded(loads, rtext)
+            explained = rstatus == "ok" and strict_eq(rgot, j_drop_falsy_first(json.loads(rtext)))
+        feats["accepted_once_listed_triggers_are_removed"] = explained
         return [("json:accepts-documented-subset", {"text": text, "value": exp}, got, feats)]
     pred = j_drop_falsy_first(exp)
     feats["json_array_first_element_falsy"] = not strict_eq(pred, exp)
@@ -756,17 +832,18 @@ def check_tag_case(case):
     a = case["ast"]
     text = t_render(a, case["full_parens"], case["spaced"])
     feats = {"spaced": bool(case["spaced"]), "full_parens": bool(case["full_parens"])}
-    try:
-        pred = t_parse()(text)
-    except Exception as ex:
-        return [("taglang:accepts-documented-expression", {"text": text}, "rejected: " + " ".join(str(ex).split())[:120], feats)]
+    parse = t_parse()
+    status, pred = guarded(parse, text)
+    if status == "hang":
+        return [("taglang:terminates", {"text": text}, "no result within %d CPU-s" % DOC_GUARD_S, feats)]
+    if status == "exc":
+        return [("taglang:accepts-documented-expression", {"text": text},
+                 "rejected: " + " ".join(str(pred).split())[:120], feats)]
     exp, got = [], []
     for ts in TAGSETS:
         exp.append(t_eval(a, ts))
-        try:
-            got.append(pred(list(ts)))
-        except Exception as ex:
-            got.append("raised " + repr(ex)[:60])
+        status, val = guarded(pred, list(ts))
+        got.append(val if status == "ok" else ("raised " + repr(val)[:60] if status == "exc" else "no result"))
     if exp != got or any(type(g) is not bool for g in got):
         return [("taglang:boolean-meaning-under-stated-precedence",
                  {"text": text, "truth_table_over_subsets_of_abc": exp}, got, feats)]
@@ -781,27 +858,21 @@ def units(tier, seed):
     b = BOUNDS[tier]
     terms, _ = all_terms(b["term_nodes"])          # built in the parent: forked workers inherit it
     n = len(terms)
-    per = 300 if tier == "quick" else 2000
+    per = 300 if tier == "quick" else 4000
     us = [{"part": "terms", "lo": lo, "hi": min(n, lo + per)} for lo in range(0, n, per)]
-    xper = 400 if tier == "quick" else 2500
+    xper = 400 if tier == "quick" else 5000
     us += [{"part": "xref", "lo": lo, "hi": min(n, lo + xper)} for lo in range(0, n, xper)]
     nj = len(j_values(tier))
-    jper = 1200 if tier == "quick" else 3000
+    jper = 1200 if tier == "quick" else 6000
     us += [{"part": "json", "lo": lo, "hi": min(nj, lo + jper)} for lo in range(0, nj, jper)]
     nt = len(t_all(tier))
-    tper = 700 if tier == "quick" else 1200
+    tper = 700 if tier == "quick" else 2400
     us += [{"part": "taglang", "lo": lo, "hi": min(nt, lo + tper)} for lo in range(0, nt, tper)]
     return us
 
 
 def unit_weight(u):
     return {"terms": 3, "xref": 2, "taglang": 2}.get(u["part"], 1)
-
-
-def _fp(r):
-    if r is peg.FAIL:
-        return "F"
-    return "ok%d" % r[0]
 
 
 def run_unit(unit, tier):
@@ -812,50 +883,57 @@ def run_unit(unit, tier):
     if part == "terms":
         terms, size_bounds = all_terms(b["term_nodes"])
         evaluate, LOOPV, FAILV, stats = peg.evaluate, peg.LOOP, peg.FAIL, peg.Stats
+        budget_ctx()                    # imports happen outside the CPU guard
+        hangs = 0
         for ti in range(unit["lo"], unit["hi"]):
             t = terms[ti]
             size = 1 + sum(1 for sb in size_bounds if ti >= sb)
             do_call = size <= b["call_nodes"]
             res.maxi("term_nodes_completed", size)
-            with cpu_guard():
-                try:
+            pending = []                # indices into INPUTS that disagreed; decided on the slow path below
+            hung = False
+            idx = 0
+            try:
+                with cpu_guard():
                     parser = build(t)
-                except BudgetExceeded:
-                    parser = None
-                done = []
-                for s in INPUTS:
-                    exp = evaluate(t, s)
-                    if exp is LOOPV:
-                        res.stat("pairs_skipped_repetition_over_nonconsuming", 1)
-                        continue
-                    absorbed = stats.absorbed
-                    suspicious = stats.sep_first_falsy or stats.sep_first_none
-                    try:
-                        got = run_process(parser, s) if parser is not None else HANG
-                    except BudgetExceeded:
-                        got = HANG
-                    res.evals += 1
-                    if absorbed and s:
-                        res.nontrivial += 1
-                    ok = agree(exp, got)
-                    if ok and do_call:
-                        try:
-                            got2 = run_call(parser, s)
-                        except BudgetExceeded:
-                            got2 = HANG
-                        res.stat("call_evaluations", 1)
-                        ok = agree(exp, got2, False)
-                    if not ok or got is HANG:
-                        _report_term(res, t, s, done, do_call)
-                        if got is HANG:
-                            break           # do not burn the budget 121 times on a looping term
-                    elif suspicious:
-                        pass
-                    done.append(s)
-                    if exp is FAILV:
-                        res.outcomes.add(t[0] + ":F")
-                    else:
-                        res.outcomes.add("%s:ok%d" % (t[0], exp[0]))
+                    for idx, s in enumerate(INPUTS):
+                        exp = evaluate(t, s)
+                        if exp is LOOPV:
+                            res.stat("pairs_skipped_repetition_over_nonconsuming", 1)
+                            continue
+                        absorbed = stats.absorbed
+                        got = run_process(parser, s)
+                        res.evals += 1
+                        if absorbed and s:
+                            res.nontrivial += 1
+                        ok = agree(exp, got)
+                        if ok and do_call:
+                            got = run_call(parser, s)
+                            res.stat("call_evaluations", 1)
+                            ok = agree(exp, got, False)
+                        if not ok:
+                            pending.append(idx)
+                            if got is HANG:
+                                hung = True
+                                break       # do not burn the budget 121 times on a looping term
+                        if exp is FAILV:
+                            res.outcomes.add(t[0] + ":F")
+                        else:
+                            res.outcomes.add("%s:ok%d" % (t[0], exp[0]))
+            except BudgetExceeded:
+                hung = True
+                if idx not in pending:
+                    pending.append(idx)
+            for n, i in enumerate(pending):
+                # the (expensive) reused-parser variant is tried for the first few disagreements of a term only
+                _report_term(res, t, INPUTS[i], INPUTS[:i] if n < 6 else None, do_call)
+            if hung:
+                hangs += 1
+                if hangs >= MAX_HANGS_PER_UNIT:
+                    res.exhaustive = False
+                    res.notes.append("a terms unit was abandoned after %d non-terminating terms" % hangs)
+                    break
+        res.maxi("max_process_calls_in_a_completed_parse", _MAX_STEPS[0])
         lo_t = terms[unit["lo"]]
         res.samples.append({"kind": "term", "term": lo_t, "input": "abA", "via": "process"})
         return res
@@ -879,6 +957,7 @@ def run_unit(unit, tier):
 
     if part == "json":
         vals = j_values(tier)
+        hangs = 0
         for vi in range(unit["lo"], unit["hi"]):
             v = vals[vi]
             for how in J_RENDERINGS:
@@ -887,12 +966,22 @@ def run_unit(unit, tier):
                 res.case(nontrivial=j_is_deep(v), outcome="json:%s:%s" % (how, vio[0][0] if vio else "agree"))
                 for c, e, o, f in vio:
                     res.violation(c, case, e, o, f)
+                    hangs += c.endswith(":terminates")
+            if hangs >= MAX_HANGS_PER_UNIT:
+                res.exhaustive = False
+                res.notes.append("a json unit was abandoned after %d non-terminating documents" % hangs)
+                break
         res.samples.append({"kind": "json", "value": vals[unit["lo"]], "render": "indent"})
         return res
 
     if part == "taglang":
         asts = t_all(tier)
+        hangs = 0
         for ai in range(unit["lo"], unit["hi"]):
+            if hangs >= MAX_HANGS_PER_UNIT:
+                res.exhaustive = False
+                res.notes.append("a taglang unit was abandoned after %d non-terminating expressions" % hangs)
+                break
             a = asts[ai]
             lv = t_levels(a)
             for opts, _txt in t_renderings(a):
@@ -903,18 +992,20 @@ def run_unit(unit, tier):
                 res.stat("tagset_evaluations", len(TAGSETS))
                 for c, e, o, f in vio:
                     res.violation(c, case, e, o, f)
+                    hangs += c.endswith(":terminates")
         res.samples.append({"kind": "tag", "ast": asts[unit["lo"]], "full_parens": False, "spaced": True})
         return res
     raise ValueError(part)
 
 
-def _report_term(res, t, s, done, do_call):
+def _report_term(res, t, s, earlier, do_call):
     """Slow path after a disagreement in the hot loop: decide on a freshly built parser first (so that
     the recorded case replays from its descriptor alone); only if the fresh parser agrees is the
     disagreement attributed to state kept in the parser object between inputs."""
+    found = False
     for via in (("process", "call") if do_call else ("process",)):
-        found = False
-        for prior in ([], list(done)):
+        variants = [None] + ([list(earlier)] if earlier else [])
+        for prior in variants:
             case = {"kind": "term", "term": t, "input": s, "via": via}
             if prior:
                 case["prior"] = prior
@@ -924,9 +1015,16 @@ def _report_term(res, t, s, done, do_call):
                     res.stat(c.replace(":", "_"), 1)
                 else:
                     res.violation(c, case, e, o, f)
+            if vio:
                 found = True
-            if found:
                 break
+        if any(c == "combinators:terminates" for c, _, _, _ in vio):
+            return                      # a second non-terminating run adds nothing
+    if not found:
+        res.stat("disagreements_not_reproduced_from_a_descriptor_and_not_recorded", 1)
+        note = "some hot-loop disagreements did not reproduce from a case descriptor and were not recorded (see counters)"
+        if note not in res.notes:
+            res.notes.append(note)
 
 
 def replay(case):
